@@ -141,3 +141,32 @@ Lemma view_iff ls mb u fl :
 Proof.
   split; [apply view_sound|]. intros [l [Hl [Hm [<- <-]]]]. now apply view_complete.
 Qed.
+
+(** ---------- the auto-move fails: no mailbox is named Spam ---------- *)
+
+Lemma will_move_no_spam e mb item new l : mb = inbox_id e -> will_move e None mb item new l = false.
+Proof.
+  intros ->. unfold will_move. destruct (junk_added _ _); [reflexivity|].
+  destruct (nonjunk_added _ _); [|reflexivity]. now rewrite Z.eqb_refl.
+Qed.
+
+Lemma junk_class_no_spam e mb item new rows : mb = inbox_id e -> junk_class e None mb item new rows = None.
+Proof.
+  intros H. unfold junk_class. replace (existsb (will_move e None mb item new) rows) with false; [reflexivity|].
+  symmetry. induction rows as [|l rows IH]; simpl; [reflexivity|]. now rewrite (will_move_no_spam e mb item new l H).
+Qed.
+
+(** With Spam renamed or deleted, MoveMessageToMailbox fails ("destination
+    mailbox not found") and STORE / UID STORE in INBOX store Junk - and every
+    flag named with it - in place, like any other flag: the accepted STORE is
+    exact for every set, data item, flag list and .SILENT. *)
+Theorem failed_move_stores_in_place e s silent mb q item new it :
+  uniq_keys (links s) -> item_of item = Some it -> flags_valid new = true ->
+  spam s = None -> mb = inbox_id e ->
+  Forall2 (row_ok mb (seq_targets (links s) mb q) it new) (links s) (links (step e s (OStore false silent mb q item new)))
+  /\ Forall2 (row_ok mb (expand_uid (links s) mb q) it new) (links s) (links (step e s (OUidStore false silent mb q item new))).
+Proof.
+  intros Hu Hi Hv Hs Hm. split.
+  - apply (seq_store_meaning e s silent mb q item new it Hu Hi Hv). simpl. rewrite Hv, Hs. simpl. now apply junk_class_no_spam.
+  - apply (uid_store_meaning e s silent mb q item new it Hu Hi Hv). simpl. rewrite Hv, Hs. simpl. now apply junk_class_no_spam.
+Qed.
